@@ -9,13 +9,13 @@ import traceback
 from . import impl
 
 APIS = ["prep", "prep_neg", "readout", "compress", "mub_circuits", "mubs", "mub_info", "fst", "smc", "conn_graph", "classify", "class_graph",
-        "expand", "to_list", "decompress"]
+        "expand", "to_list", "decompress", "fit_full", "fit_sub", "fit_dm"]
 FILE_KIND = {"prep": "stab", "prep_neg": "stab", "readout": "stab", "compress": "stab", "smc": "stab",
-             "expand": "none", "to_list": "none", "decompress": "none",
+             "expand": "none", "to_list": "none", "decompress": "none", "fit_full": "mub", "fit_sub": "mub", "fit_dm": "mub",
              "mub_circuits": "mub", "mubs": "mub", "mub_info": "mub", "fst": "mub",
              "conn_graph": "none", "classify": "none", "class_graph": "none"}
 READS = {"prep": ["infos"], "prep_neg": ["infos"], "readout": ["infos"], "compress": ["infos"], "smc": ["infos"],
-         "expand": [], "to_list": [], "decompress": [],
+         "expand": [], "to_list": [], "decompress": [], "fit_full": ["circuits"], "fit_sub": ["circuits"], "fit_dm": ["circuits"],
          "mub_circuits": ["circuits"], "fst": ["circuits"], "mubs": ["mubs"], "mub_info": ["header"],
          "conn_graph": [], "classify": [], "class_graph": []}
 LOOKUP_APIS = ["lookup_stab", "lookup_mub"]      # circuit_lookup plumbing, thorough tier only
@@ -53,7 +53,11 @@ def ser(o, L, depth=0):
     if isinstance(o, (np.floating,)):
         return repr(float(o))
     if isinstance(o, np.ndarray):
+        if o.dtype.kind == "c":
+            return ["nd", str(o.dtype), [[repr(complex(x)) for x in row] for row in np.atleast_2d(o).round(12).tolist()]]
         return ["nd", str(o.dtype), o.tolist()]
+    if type(o).__name__ in ("FullStateTomographyFitter", "StabilizerMeasurementFitter"):
+        return ["fitter", type(o).__name__]
     if isinstance(o, QuantumCircuit):
         md = o.metadata
         return ["qc", o.num_qubits, o.num_clbits, impl.gates_of(o), ser(md, L, depth + 1) if md else None]
@@ -193,6 +197,18 @@ def make_args(api, cfg, L, held_args=None):
         return [qc, conn]
     if api in ("expand", "to_list"):
         return [st]
+    if api in ("fit_full", "fit_sub", "fit_dm"):
+        # ONE fitter object per configuration, kept by the caller for the whole history: subset tomography of the last n qubits (in reversed order) of an
+        # (n+1)-qubit register, evaluated on a fixed count dictionary per circuit
+        key = ("fitter", cfg)
+        if key not in held_args:
+            from .workers import FakeResult
+            prep = impl.circuit_from_gates(n + 1, prog)
+            lst = list(range(n, 0, -1))
+            circs = L.tomography.full_state_tomography_circuits(prep, conn, lst)
+            counts = [{format((3 * i + 1) % (1 << (n + 1)), f"0{n + 1}b"): 5, format((5 * i + 2) % (1 << (n + 1)), f"0{n + 1}b"): 3} for i in range(len(circs))]
+            held_args[key] = L.tomography.FullStateTomographyFitter(FakeResult(counts), circs)
+        return [held_args[key]]
     if api == "decompress":
         return [n, 1]
     if api in ("mub_circuits", "mubs", "mub_info", "conn_graph", "lookup_mub"):
@@ -232,6 +248,12 @@ def call_api(api, args, L):
         return args[0].to_list()
     if api == "decompress":
         return L.graph.Graph.decompress(*args)
+    if api == "fit_full":
+        return args[0].expectation_values(full_hilbert_space=True)
+    if api == "fit_sub":
+        return args[0].expectation_values(full_hilbert_space=False)
+    if api == "fit_dm":
+        return args[0].density_matrix(full_hilbert_space=False)
     if api == "readout":
         return L.stabilizer_circuits.get_readout_circuit(*args)
     if api == "compress":
